@@ -13,8 +13,14 @@ import RxnModel.Model.Store
 * `finishSnapshotAsync` as it is after the D13 repair, split at its storage/lock boundaries:
   `write n` (file visible), `lock n` (the `stateMu` section: obsolete = completed ids `< n`,
   `completed := n :: newer`), then the two goroutines it starts: `remove ids` and the retained-ids
-  notification. Each notification is sent from its own goroutine, so `deliver k` may pick any started one
-  (D54); `Pub.fifo` records whether all deliveries so far were in start order.
+  notification. Notifications are queued under the lock (`retainedToAnnounce`) and sent by the single
+  `announceRetained` goroutine in queue order (D54 repair): `deliver` takes the head. The rule of the unrepaired
+  code (a goroutine per notification, any of the started ones may get through) is kept as `deliverAt` for the
+  regression witness; `Pub.fifo` records whether all deliveries so far took the head (always, with `deliver`).
+* `fileStore.Write` is atomic: object stores put whole objects and `LocalDirectory.Write` writes a temporary file
+  `.tmp-<name>-<n>` and renames it (D60 repair). A crash inside a write is therefore a `crash` before `write n`, plus
+  a leftover temporary file whose name is not a snapshot name (`tmp_name_ignored`). `loadOldWrite` keeps the old
+  behaviour (final name visible before the content is complete) for the regression witness.
 * `crash` = the job process is lost at this point and a new `Store` runs `LoadCheckpoint` on what is in storage.
 
 `Pub.written` and `Pub.delivered` are history variables. Core-only (imported by the compiled driver).
@@ -168,7 +174,7 @@ inductive Act where
   | write (n : Nat)
   | lock (n : Nat)
   | remove (ids : List Nat)
-  | deliver (k : Nat)   -- the k-th started notification goroutine gets its send through (0 = the oldest)
+  | deliver             -- `announceRetained` sends the oldest queued notification
   | crash
 deriving Repr
 
@@ -204,6 +210,26 @@ def lockUpdateOld (p : Pub) (n : Nat) : Pub × List Nat × Bool :=
             notifs := if obsolete.isEmpty then p.notifs else p.notifs ++ [[n]] },
    obsolete, !obsolete.isEmpty)
 
+/-- the k-th queued notification is received by the job. The repaired code only ever delivers the head (k = 0);
+the unrepaired code sent every notification from its own goroutine, so any k was possible (D54). -/
+def deliverAt (s : Sys) (k : Nat) : Option (Sys × List Obs) :=
+  match s.pub.notifs[k]? with
+  | none => none
+  | some ids =>
+    some ({ s with pub := { s.pub with notifs := s.pub.notifs.eraseIdx k, delivered := s.pub.delivered ++ ids,
+                                       fifo := s.pub.fifo && k == 0 } }, [.notify ids])
+
+/-- `LoadCheckpoint` under the unrepaired `LocalDirectory.Write` (D60): snapshot files were created under their
+final name and filled afterwards, so a crash could leave the newest file cut off (`false`); the newest name is
+picked and reading it fails (`none` = the job does not start). -/
+def loadOldWrite (files : List (Nat × Bool)) : Option (Option Nat) :=
+  match load (files.map (·.1)) with
+  | none => some none
+  | some n => if (n, true) ∈ files then some (some n) else none
+
+/-- the name of a temporary file of `LocalDirectory.Write`: `.tmp-<final base name>-<digits>` -/
+def tmpName (id : Nat) (suffix : Bytes) : Bytes := [46, 116, 109, 112, 45] ++ snapName id ++ [45] ++ suffix
+
 def step (s : Sys) : Act → Option (Sys × List Obs)
   | .call c =>
     let (st', r, fin) := Store.step s.store c
@@ -230,14 +256,7 @@ def step (s : Sys) : Act → Option (Sys × List Obs)
       some ({ s with pub := { s.pub with files := s.pub.files.filter (· ∉ ids),
                                          removes := s.pub.removes.erase ids } }, [.removed ids])
     else none
-  | .deliver k =>
-    -- every notification is sent from its own goroutine (`go func() { ch <- ids }()`): which of the started
-    -- ones is received next is up to the scheduler (D54)
-    match s.pub.notifs[k]? with
-    | none => none
-    | some ids =>
-      some ({ s with pub := { s.pub with notifs := s.pub.notifs.eraseIdx k, delivered := s.pub.delivered ++ ids,
-                                         fifo := s.pub.fifo && k == 0 } }, [.notify ids])
+  | .deliver => deliverAt s 0
   | .crash =>
     some (boot s.pub.files s.pub.written s.pub.delivered s.pub.initial s.pub.finished s.pub.fifo, [.loaded (load s.pub.files)])
 
